@@ -57,6 +57,8 @@ fn main() {
         "serde" => drive_serde(&mut cx),
         "toroidal" => drive_toroidal(&mut cx),
         "extreme" => drive_extreme(&mut cx),
+        "c07demo" => drive_c07demo(&mut cx),
+        "repairtrace" => drive_repairtrace(&mut cx),
         "faults" => vharness::faults::drive_faults(&mut cx),
         "determinism" => drive_determinism(&mut cx, &out),
         "detchild" => drive_detchild(&mut cx.tr, &hist),
